@@ -53,6 +53,8 @@ def handle : List String → String
   | ["xmlce", s] => showL (substXmlCE T X (cps s))
   | ["html", s] => showL (substHtml T (cps s))
   | ["html5", s] => showL (substHtml5 T (cps s))
+  | ["html5mid", s] => showL (substHtml5Mid T (cps s))
+  | ["readtextend", s] => showL (readTextEnd T false 0 (cps s))
   | ["html5old", s] => showL (substHtml5Old T (cps s))
   | ["html5raw", s] => showL (substHtml5Raw T (cps s))
   | ["quote", s] => showL (quoteAttr (cps s))
@@ -99,8 +101,10 @@ def handle : List String → String
     let reads := subs.flatMap fun o => [showL (readText T false 0 o), showL (quoteAttr o), showO (readAttr T (quoteAttr o))]
     let raw := [if s.contains 60 then "skip" else showL (readText T false 0 s), showO (readAttr T (quoteAttr s))]
     -- the hypothesis of `reader_attr_is_tokenizer`: the model of html.unescape on the bodies actually written
+    -- the same texts as the last thing of a document (no tag after them)
+    let ends := (subs ++ [s]).map fun o => if o.contains 60 then "skip" else showL (readTextEnd T false 0 o)
     let un := subs.map fun o => showL (unescape T 0 ((quoteAttr o).drop 1).dropLast)
-    " ".intercalate (head.map showL ++ reads ++ raw ++ un)
+    " ".intercalate (head.map showL ++ reads ++ raw ++ un ++ ends)
   | _ => "bad-op"
 
 end BS.Drv.C09
